@@ -94,6 +94,11 @@ func main() {
 		go func(i int, j job) {
 			defer wg.Done()
 			defer func() { <-sem }()
+			defer func() {
+				if x := recover(); x != nil {
+					res[i] = fmt.Sprintf("gadget-panics(%v)", x)
+				}
+			}()
 			want := digest(j.dom, j.msg)
 			c := &circuits.KeccakCircuit{In: make([]frontend.Variable, 8*len(j.msg)), Out: make([]frontend.Variable, 256), Domain: j.dom}
 			r := hex.EncodeToString(want)
